@@ -592,14 +592,40 @@ def run_fortran_engine(ctx, prop):
     ctx.count("probe:step_failed", outcomes.count("failed"))
     ctx.count("probe:step_switched", outcomes.count("switched"))
     ctx.count("probe:step_raised", outcomes.count("raised"))
+    ctx.count("fault:step_cut_short_by_failstep", outcomes.count("failed"))
+    ctx.count("fault:step_cut_short_by_switch", outcomes.count("switched"))
+    ctx.count("fault:step_cut_short_by_raise", outcomes.count("raised"))
+    if order_perm:
+        ctx.count("fault:storage_order_permuted")
     ctx.count("sum:steps", len(outcomes))
-    n_ut_temps = len([n for n, ty in sc.types.items() if ty == "ut" and not n.startswith("<")])
+    try:
+        t_last = [r["store"].get("<t>") for r in ref if "store" in r][-1]
+        ctx.count("sum:simulated_time", round(min(abs(float(t_last) - float(sc.t0)), 1e3), 6))
+    except Exception:
+        pass
+    n_moves = sum(1 for ph in sc.phases for op in _flat_ops(ph.ops)
+                  if op[0] == "assign" and sc.types.get(op[1]) in ("ut", "utv") and type(op[3]).__name__ == "Var")
+    if n_moves:
+        ctx.count("probe:ut_move", n_moves)
+    n_ut_temps = len([n for n, ty in sc.types.items() if ty in ("ut", "utv") and not n.startswith("<")])
     if n_ut_temps:
         ctx.count("probe:ut_temporaries", n_ut_temps)
+        if "failed" in outcomes or "switched" in outcomes:
+            ctx.count("probe:ut_temp_live_across_exit")
     ctx.nontrivial = len(outcomes) >= 2
     ctx.dkey(sc.shape_sig, outcomes)
     ctx.log.add(prop, outcomes)
     ctx.sample = {"script": ctx.decoded["script"][:14], "run_calls": n_runs, "step_outcomes": outcomes}
+
+
+def _flat_ops(ops):
+    for op in ops:
+        if op[0] == "if":
+            yield from _flat_ops(op[2])
+            if op[3]:
+                yield from _flat_ops(op[3])
+        else:
+            yield op
 
 
 def _excerpt(text, lineno, radius=4):
